@@ -5,8 +5,10 @@ use crate::lex::verif_kani::common::ascii_str;
 
 /// Requires: `span` is a sub-slice of `input` (that is the function's real
 /// precondition - the `assert!` at its top).  Every string of exactly N bytes
-/// over {'\n', 'a', ' '} and every sub-slice [s, e).
-fn parse_error_new<const N: usize>() {
+/// over {'\n', 'a', ' '} and the sub-slice [S, E).  N, S, E are constants of the
+/// obligation (with symbolic S, E the searcher (`memchr`) runs on slices of symbolic
+/// length: N = 1 took 326 s, N = 2 did not finish in 400 s).
+fn parse_error_new<const N: usize, const S: usize, const E: usize>() {
     let mut buf = [0u8; N];
     let mut i = 0;
     while i < N {
@@ -18,9 +20,7 @@ fn parse_error_new<const N: usize>() {
         i += 1;
     }
     let input = ascii_str(&buf, N);
-    let s: usize = kani::any();
-    let e: usize = kani::any();
-    kani::assume(s <= e && e <= N);
+    let (s, e) = (S, E);
     let span = &input[s..e];
     let err = ParseError::new(input, (LexErrorKind::EOF, span));
     // reference: line containing byte offset s
@@ -46,25 +46,59 @@ fn parse_error_new<const N: usize>() {
     assert!(err.span_start == s - line_start, "the column is the offset inside that line");
     assert!(err.span_start + err.span_len <= err.input.len(), "the column range lies inside the line");
     assert!(err.span_len <= e - s);
-    kani::cover!(line_no > 0 && s < e, "span on a later line");
-    kani::cover!(s == N, "empty span at end of input");
+    // the span is cut at the end of its first line, not shortened otherwise
+    assert!(err.span_len == if e <= line_end { e - s } else { line_end - s }, "the column range is the span cut at the end of the line");
+    kani::cover!(line_no == S, "every byte before the span is a line break");
+    kani::cover!(line_no == 0, "span on the first line");
+    kani::cover!(err.span_len == E - S, "span inside one line");
     std::mem::forget(err);
 }
 
-#[kani::proof]
-#[kani::unwind(5)]
-fn parse_error_new__line_and_columns_len1() {
-    parse_error_new::<1>()
+macro_rules! case {
+    ($name:ident, $n:literal, $s:literal, $e:literal) => {
+        #[kani::proof]
+        #[kani::unwind(6)]
+        fn $name() {
+            parse_error_new::<$n, $s, $e>()
+        }
+    };
 }
 
-#[kani::proof]
-#[kani::unwind(6)]
-fn parse_error_new__line_and_columns_len2() {
-    parse_error_new::<2>()
-}
+case!(parse_error_new__len1_span_0_0, 1, 0, 0);
+case!(parse_error_new__len1_span_0_1, 1, 0, 1);
+case!(parse_error_new__len1_span_1_1, 1, 1, 1);
 
+case!(parse_error_new__len2_span_0_0, 2, 0, 0);
+case!(parse_error_new__len2_span_0_1, 2, 0, 1);
+case!(parse_error_new__len2_span_0_2, 2, 0, 2);
+case!(parse_error_new__len2_span_1_1, 2, 1, 1);
+case!(parse_error_new__len2_span_1_2, 2, 1, 2);
+case!(parse_error_new__len2_span_2_2, 2, 2, 2);
+
+case!(parse_error_new__len3_span_0_0, 3, 0, 0);
+case!(parse_error_new__len3_span_0_1, 3, 0, 1);
+case!(parse_error_new__len3_span_0_2, 3, 0, 2);
+case!(parse_error_new__len3_span_0_3, 3, 0, 3);
+case!(parse_error_new__len3_span_1_1, 3, 1, 1);
+case!(parse_error_new__len3_span_1_2, 3, 1, 2);
+case!(parse_error_new__len3_span_1_3, 3, 1, 3);
+case!(parse_error_new__len3_span_2_2, 3, 2, 2);
+case!(parse_error_new__len3_span_2_3, 3, 2, 3);
+case!(parse_error_new__len3_span_3_3, 3, 3, 3);
+
+/// Regression obligation with a multi-byte character in front of the span on a later
+/// line: `"é\nxé y"`, span = the `y` (byte 7).  Columns are BYTE offsets inside the line;
+/// the line and the offsets must slice it on character boundaries.
 #[kani::proof]
-#[kani::unwind(7)]
-fn parse_error_new__line_and_columns_len3() {
-    parse_error_new::<3>()
+#[kani::unwind(12)]
+fn parse_error_new__multibyte_line_concrete() {
+    let input = "\u{e9}\nx\u{e9} y";
+    let span = &input[7..8];
+    let err = ParseError::new(input, (LexErrorKind::EOF, span));
+    assert!(err.line_number == 1);
+    assert!(std::ptr::eq(err.input.as_ptr(), unsafe { input.as_ptr().add(3) }) && err.input.len() == 5);
+    assert!(err.span_start == 4 && err.span_len == 1);
+    assert!(err.input.is_char_boundary(err.span_start) && err.input.is_char_boundary(err.span_start + err.span_len));
+    kani::cover!(true, "completed");
+    std::mem::forget(err);
 }
